@@ -370,6 +370,12 @@ impl<'a> Gen<'a> {
                     let mut scs: Vec<Scope> = vec![];
                     let dup = self.r.chance(1, 6);
                     for b in 0..nb {
+                        if b > 0 && !dup && self.r.chance(1, 12) {
+                            // an empty branch: the unit solution
+                            bs.push(vec![]);
+                            scs.push(Scope::new());
+                            continue;
+                        }
                         if dup && b == 1 {
                             let first: Vec<P> = bs[0].clone();
                             scs.push(scs[0].clone());
@@ -384,7 +390,7 @@ impl<'a> Gen<'a> {
                     elems.push(P::Union(bs));
                 }
                 2 => {
-                    let (g, s) = self.gen_group(depth + 1, false);
+                    let (g, s) = if self.r.chance(1, 12) { (vec![], Scope::new()) } else { self.gen_group(depth + 1, false) };
                     join_scope(&mut sc, &s);
                     elems.push(P::Group(g));
                 }
@@ -415,7 +421,7 @@ impl<'a> Gen<'a> {
                         }
                     }
                     let kinds: Vec<Kind> = vars.iter().map(|v| sc.get(v).map(|i| i.kind).unwrap_or(if self.r.coin() { Kind::Ent } else { Kind::Num })).collect();
-                    let nr = self.r.range(1, 3);
+                    let nr = if self.r.chance(1, 15) { 0 } else { self.r.range(1, 3) };
                     let mut rows = vec![];
                     for _ in 0..nr {
                         let mut row = vec![];
